@@ -127,8 +127,58 @@ let show_steps steps =
   let parts = go [] steps in
   if parts = [] then "_" else String.concat " " parts
 
+(* ---- writer at API-call level (kind wapi): parsing and printing only ---------------------- *)
+let parse_script s =
+  if s = "_" then [] else
+  List.map (fun t ->
+    let num () = int_of_string (String.sub t 1 (String.length t - 1)) in
+    match t.[0] with
+    | 'F' -> Full
+    | 'I' -> Interrupted
+    | 'S' -> Short (nat_of_int (num ()))
+    | 'E' -> Fail (n_of_int (num ()))
+    | _ -> failwith "script") (split_on ',' s)
+
+let parse_mwops s =
+  if s = "_" then [] else
+  List.map (fun t ->
+    if t = "F" then MFlush
+    else if String.length t > 1 && t.[0] = 'W' then MWriteAll (nat_of_int (int_of_string (String.sub t 1 (String.length t - 1))))
+    else failwith "mwop") (split_on ',' s)
+
+let api_code_name c =
+  match int_of_n c with
+  | 0 -> "Ok" | 1 -> "OutOfFuel" | 10 -> "Err:Interrupted" | 11 -> "Err:WriteZero"
+  | 12 -> "Err:Other" | 13 -> "Err:BrokenPipe" | 14 -> "Err:PermissionDenied"
+  | k -> "Err:#" ^ string_of_int k
+
 let handle kind a =
   match kind with
+  | "wbr" ->
+      (* the args of wapi with a script Full^j [Fail e]: C03's own writer model through the embedding *)
+      let p = nat_of_int (int_of_string a.(0)) in
+      let frames = if a.(6) = "_" then [] else List.map bytes_of_hex (split_on ',' a.(6)) in
+      let rec split j = function
+        | Full :: r -> split (j + 1) r
+        | [Fail e] -> (Some (nat_of_int j), e)
+        | [] -> (None, n_of_int 2)
+        | _ -> failwith "wbr script" in
+      let (fa, e) = split 0 (parse_script a.(2)) in
+      (match c03_writer_bridge_case p frames e fa (parse_ops a.(3)) with
+       | Some ((code, calls), bytes) ->
+           Some (Printf.sprintf "%s|calls=%d|bytes=%s" (api_code_name code) (int_of_nat calls) (canon_bytes bytes))
+       | None -> Some "Stuck")
+  | "wapi" ->
+      (* P level script ops seed dk frames plan : per-call results | inner calls | sink bytes *)
+      let p = nat_of_int (int_of_string a.(0)) in
+      let frames = if a.(6) = "_" then [] else List.map bytes_of_hex (split_on ',' a.(6)) in
+      let plan = if a.(7) = "_" then [] else List.init (String.length a.(7)) (fun i -> a.(7).[i] = '1') in
+      (match c03_writer_api_obs p (nat_of_int 65495) frames plan (parse_mwops a.(3)) (parse_script a.(2)) with
+       | Some ((rs, calls), bytes) ->
+           Some (Printf.sprintf "%s|calls=%d|bytes=%s"
+                   (if rs = [] then "_" else String.concat "," (List.map api_code_name rs))
+                   (int_of_nat calls) (canon_bytes bytes))
+       | None -> Some "Stuck")
   | "w" ->
       (* P level fail_at ops rel seed mode *)
       let p = nat_of_int (int_of_string a.(0)) in
@@ -149,6 +199,13 @@ let handle kind a =
       (* P frames gzi ops segs policy seed : MultithreadedReader op history under the schedule segs *)
       let p = nat_of_int (int_of_string a.(0)) in
       Some (show_steps (c03_mt_reader_case p (parse_segs a.(4)) (parse_hframes a.(1)) (parse_index a.(2)) (parse_mops a.(3))))
+  | "rhv" ->
+      (* the same well-formed history through the ERROR model on the embedded all-good file *)
+      let p = nat_of_int (int_of_string a.(0)) in
+      Some (show_steps (c03_mt_reader_case_via_err p (parse_segs a.(4)) (parse_hframes a.(1)) (parse_index a.(2)) (parse_mops a.(3))))
+  | "rhstv" ->
+      let ops = List.filter_map (function MOp o -> Some o | _ -> None) (parse_mops a.(2)) in
+      Some (show_steps (c03_st_reader_case_via_err (parse_hframes a.(0)) (parse_index a.(1)) ops))
   | "rhst" ->
       (* frames gzi ops : the same history on the single-threaded Reader (no g / z ops) *)
       let ops = List.filter_map (function MOp o -> Some o | _ -> None) (parse_mops a.(2)) in
